@@ -1241,7 +1241,14 @@ class PathEval:
             it = it[1]
         if isinstance(it, tuple) and it and it[0] == "loc" and len(it) > 2:
             it = it[2]
-        if not (isinstance(it, tuple) and it and it[0] == "call" and it[1].endswith("[T]>::iter") and it[3]):
+        if not (isinstance(it, tuple) and it and it[0] == "call" and it[3]):
+            return None
+        byval = False
+        if it[1].endswith("[T]>::iter") or (it[1].endswith("::into_iter") and "IntoIterator for &" in it[1] and "[T; N]" in it[1]):
+            pass
+        elif it[1].endswith("::into_iter") and "IntoIterator for [T; N]" in it[1]:
+            byval = True        # the array itself is consumed: the items are the elements, not references to them
+        else:
             return None
         elems = self._const_elems(it[3][0])
         if not elems or len(elems) > 16:
@@ -1253,10 +1260,11 @@ class PathEval:
         stop_on = how != "all"      # the truth value of the predicate that ends the scan
 
         def hit(i, e):
-            return {"find": ("agg", "adt", OPT, "Some", (("ref", e),), ("0",)), "position": ("agg", "adt", OPT, "Some", (("const", "usize", i),), ("0",)), "any": T, "all": F}[how]
+            return {"find": ("agg", "adt", OPT, "Some", ((e if byval else ("ref", e)),), ("0",)), "position": ("agg", "adt", OPT, "Some", (("const", "usize", i),), ("0",)), "any": T, "all": F}[how]
         miss = {"find": ("agg", "adt", OPT, "None", (), ()), "position": ("agg", "adt", OPT, "None", (), ()), "any": F, "all": T}[how]
         for i, e in enumerate(elems):
-            r = self._apply(args[1], (("ref", ("ref", e)),) if how == "find" else (("ref", e),), bb)
+            item = e if byval else ("ref", e)
+            r = self._apply(args[1], (("ref", item),) if how == "find" else (item,), bb)
             if len(r) != 1 or r[0][1] or r[0][2] is None or (isinstance(r[0][2], tuple) and r[0][2][:2] == ("call", "closure-apply")):
                 return None
             v = r[0][2]
